@@ -81,6 +81,15 @@ CLAIMED = {
         "RFC split on clean strings is checked per case by the oracle, not proved. post_logout_redirect_uri goes through the same verify_uri "
         "but the end-session endpoint glue is not driven yet.",
    technique="Lean 4 proof (decision logic over parsed components; codec lemmas for delivery and HTML escaping) + endpoint correspondence on mutated URIs", ref="6 C06"),
+ "C15": dict(
+   text="Lean theorems for every string and every hash function H (uninterpreted): a token request passes PKCE only with a verifier that transforms "
+        "under the RECORDED method to exactly the stored challenge (verifier_required_and_bound), missing/wrong verifier refused, the recorded "
+        "method is the requested one and configured (no downgrade), essential PKCE enforced over the full global x per-client-override truth "
+        "table, unsupported methods refused, and every pair produced by the relying party's add-on is accepted (rp_pair_accepted); the method "
+        "tables of both halves are regenerated from the source and the kernel re-decides client methods subset of server methods. Tie: both "
+        "legs through the real authorization and token endpoints over configurations x verifier mutations, and real client add-on pairs.",
+   note="SHA-2/base64 are the parameter H (values computed by the harness with hashlib); code resolution and token minting are C04/C02.",
+   technique="Lean 4 proof (decision logic, hash uninterpreted; kernel-decided table obligations) + endpoint correspondence", ref="6 C15"),
 }
 NOT_YET = {}
 ALL = [f"C{i:02d}" for i in range(1, 21)]
